@@ -1,12 +1,12 @@
 package vlab
 
 import (
-	"hash/fnv"
-	"sort"
 	"encoding/json"
 	"fmt"
+	"hash/fnv"
 	"os"
 	"path/filepath"
+	"sort"
 	"time"
 
 	"github.com/go-task/task/v3/zverif/vsched"
